@@ -250,10 +250,16 @@ PointAt(ds, p) == IF p = 0 THEN ds
                   ELSE LET full == Zeros(p + 1 - Len(ds)) \o ds
                            n == Len(full)
                        IN SubSeq(full, 1, n - p) \o <<DOT>> \o SubSeq(full, n - p + 1, n)
+(* IEEE-754 binary32: no general text oracle (DESIGN 6); a few patterns whose value is a short exact decimal are   *)
+(* specified: sign 1, exponent 8, significand 23 bits; e.g. 44 9a 50 00 = 2^10 * (1 + 0x1a5000 / 2^23) = 1234.5 *)
+ExpKnown == <<68, 154, 80, 0>> :> {<<49, 50, 51, 52, 46, 53>>}                    \* 1234.5
+         @@ <<192, 32, 0, 0>> :> {<<45, 50, 46, 53>>}                             \* -2.5
+         @@ <<62, 128, 0, 0>> :> {<<48, 46, 50, 53>>}                             \* 0.25
+         @@ <<66, 200, 0, 0>> :> {<<49, 48, 48>>, <<49, 48, 48, 46, 48>>}         \* 100 or 100.0
 WideExpect(T, d, bytes) ==
   LET ms == IF "REV" \in T.fl THEN bytes ELSE Rev(bytes)
   IN IF T.repl # <<>> /\ ms = T.repl THEN Null
-     ELSE IF "EXP" \in T.fl THEN Open
+     ELSE IF "EXP" \in T.fl THEN (IF d = 1 /\ ms \in DOMAIN ExpKnown THEN Val(ExpKnown[ms]) ELSE Open)
      ELSE LET neg == "SIG" \in T.fl /\ ms[1] >= 128
               ds == DecBytes(IF neg THEN NegBytes(ms) ELSE ms)
           IN CASE d = 1    -> Val({Sign(neg) \o ds})
